@@ -246,6 +246,12 @@ def check(repo: Repo, R) -> None:
         shared.conds_imply(cds, [(shared.parse_cond(v + " is None"), False)]) is True for v, cds in ralts) and all(
         shared.conds_imply(cds, [(shared.parse_cond("m.ports.get(name) is None"), True)]) is True for v, cds in ralts if v == "m.signals.get(name)") and shared.raises_under(
         fs.node, [("m.ports.get(name) is None", True), ("m.signals.get(name) is None", True)]) 
+    if not ok:
+        # canonical spelling: `if name in m.ports: return m.ports[name] elif name in m.signals: return m.signals[name] else raise`
+        ok = {v for v, _c in ralts} == {"m.ports[name]", "m.signals[name]"} and all(
+            shared.conds_imply(cds, [(shared.parse_cond("name in " + v.split("[")[0]), True)]) is True for v, cds in ralts) and all(
+            shared.conds_imply(cds, [(shared.parse_cond("name in m.ports"), False)]) is True for v, cds in ralts if v == "m.signals[name]") and shared.raises_under(
+            fs.node, [("name in m.ports", False), ("name in m.signals", False)])
     R.check(ok, rule, key_of(fs), fs.site, f"nets are found by exact name among ports and signals, else it raises: {ok}", why="a missing net silently connects to None")
 
     # ---- 6 nothing is remembered between calls
